@@ -8,7 +8,7 @@ ID = 'C04'
 WATCHDOG_IS_VIOLATION = True   # the statement says the run ends / the line reaches its horizon
 RULE = ('Hypothesis-generated serial lines: 0-6 stations (quick) / 0-10 (thorough), each PartHandler / PartProcessor (also user subclasses that override the cycle_time getter) '
         '(cycle c) or Buffer (delay c, capacity K in {1,2,3,5,inf}); source cycle c0 (0 only with a finite budget), '
-        'budget in {0, 1..20, fractional 0.5/2.5/7.25, inf}; sink cycle; all times on the dyadic grid {0,1/4,1/2,1,3/2,2,3}; horizon on the grid; '
+        'budget in {0, 1..20, fractional 0.5/2.5/7.25, inf}; sink cycle; all times on a dyadic grid {0,1/4,1/2,1,3/2,2,3, 3/1024, 1+1/4096}; horizon on the grid; '
         'tie-break policy random/fifo/lifo/const. Oracle: independent max-plus reference written from the statement '
         '(D(j,k) = max(ready(j,k), free(j+1,k)), free = D(j+1,k-K), sink frees c after receipt, source restarts when '
         'the part leaves) compared EXACTLY with the received_part time list of every station and the sink, and the '
@@ -18,7 +18,7 @@ RULE = ('Hypothesis-generated serial lines: 0-6 stations (quick) / 0-10 (thoroug
 ASSUMPTIONS = ['constant cycle times / delays / capacities; no failures, no resources, no gates (the statement\'s domain)',
                'entry times are read from simulation_data["received_part"]']
 
-GRID = [0, 0.25, 0.5, 1, 1, 1.5, 2, 3]
+GRID = [0, 0.25, 0.5, 1, 1, 1.5, 2, 3, 3 * 2 ** -10, 1 + 2 ** -12]      # also dyadic values that need more than 9 decimals
 EXAMPLES = [
     {'src': [1, 'inf'], 'stations': [['P', 1]], 'sink': 0, 'T': 100, 'tb': ['random', 1], 'expect_sink': 99},
     {'src': [0, 'inf'], 'stations': [['P', 1], ['B', 0, 5], ['P', 1]], 'sink': 0, 'T': 10080, 'tb': ['random', 1],
@@ -27,7 +27,7 @@ EXAMPLES = [
 
 
 def station():
-    hp = st.tuples(st.sampled_from(['H', 'P', 'H', 'P', 'HU', 'PU']), st.sampled_from(GRID)).map(list)
+    hp = st.tuples(st.sampled_from(['H', 'P', 'H', 'P', 'HU', 'PU', 'HS', 'PS']), st.sampled_from(GRID)).map(list)
     b = st.tuples(st.just('B'), st.sampled_from(GRID), st.sampled_from([1, 1, 2, 3, 5, 'inf', 1.5, 2.75, 3.5])).map(list)
     return st.one_of(hp, hp, b)
 
